@@ -150,6 +150,12 @@ func (g *Gen) Time() time.Time {
 // Duration: whole seconds, |d| < 27 days, both signs, never zero.
 func (g *Gen) Duration() time.Duration {
 	d := rapid.Int64Range(1, 27*24*3600-1).Draw(g.T, "dur")
+	switch rapid.IntRange(0, 5).Draw(g.T, "round") {
+	case 0: // whole days: the lexical form has no time section
+		d = int64(rapid.IntRange(1, 26).Draw(g.T, "days")) * 86400
+	case 1: // whole hours or minutes
+		d = int64(rapid.IntRange(1, 600).Draw(g.T, "units")) * int64(rapid.SampledFrom([]int{60, 3600}).Draw(g.T, "unit"))
+	}
 	if rapid.IntRange(0, 3).Draw(g.T, "neg") == 0 {
 		d = -d
 	}
